@@ -452,7 +452,7 @@ func childC10Loops(raw json.RawMessage) {
 	join := func() {
 		cfg := c10Config("g")
 		cfg.Dcp.Group.Membership.Config["heartbeatInterval"] = "40ms"
-		cfg.Dcp.Group.Membership.Config["heartbeatToleranceDuration"] = "600ms" // far above any scheduling stall of the harness
+		cfg.Dcp.Group.Membership.Config["heartbeatToleranceDuration"] = "1500ms" // far above any scheduling stall of the harness
 		cfg.Dcp.Group.Membership.Config["monitorInterval"] = "40ms"
 		ag, err := node.NewAgent()
 		must(err)
@@ -482,7 +482,7 @@ func childC10Loops(raw json.RawMessage) {
 	settle := func(what string) {
 		start := time.Now()
 		ms := int64(-1)
-		for time.Since(start) < 5*time.Second {
+		for time.Since(start) < 8*time.Second {
 			ok := true
 			for rank, i := range alive {
 				if info(i) != [2]int{rank + 1, len(alive)} {
@@ -809,7 +809,7 @@ func runC10(c *Ctx) {
 		for _, ph := range r.Phases {
 			c.Count("A':phase")
 			if ph.Ms < 0 {
-				c.Violate("not-converged", fmt.Sprintf("after '%s' the live instances %v held %v five seconds later (heart-beat 40 ms, tolerance 600 ms, monitor 40 ms)", ph.What, ph.Alive, ph.Infos), rep)
+				c.Violate("not-converged", fmt.Sprintf("after '%s' the live instances %v held %v eight seconds later (heart-beat 40 ms, tolerance 1.5 s, monitor 40 ms)", ph.What, ph.Alive, ph.Infos), rep)
 			}
 		}
 		for m, ps := range r.Pubs {
